@@ -1,7 +1,8 @@
 import Juniper.Model.XTime
-/-! Helper lemmas for C20, `JitterTicker` part: closed forms of `schedule` and of the callback's
-non-blocking send (this is where the regenerated facts are consumed), and the inductive invariant of
-the ticker LTS. -/
+/-! Helper lemmas for C20, `JitterTicker` part: the int64 / uint64 arithmetic of `schedule` in closed
+form, closed forms of `schedule` and of the callback's non-blocking send (this is where the
+regenerated facts are consumed), the statement skeletons that justify the atomic labels, and the
+inductive invariant of the ticker LTS. -/
 namespace Juniper.Proofs.XTimeTicker
 open Juniper.Facts Juniper.Gen.XTime Juniper.Model.XTime
 
@@ -11,39 +12,120 @@ def Spaced : List (Int × Int) → Prop
   | p2 :: p1 :: rest => p1.1 + p2.2 ≤ p2.1 ∧ Spaced (p1 :: rest)
   | _ => True
 
-/-- Labels inside the documented protocol: `Stop` is not called on a stopped ticker and jitter is
-never negative. (Reset with `d ≤ 0` or `jitter ≥ d` is allowed: it panics before touching anything.) -/
+/-- Labels inside the documented protocol: `Stop` is not called on a stopped ticker, jitter is never
+negative, and the `d` handed to `Reset` is a Go `time.Duration`, i.e. at most `MaxInt64` (that is
+the type of the argument, not a restriction of the callers). (Reset with `d ≤ 0` or `jitter ≥ d` is
+allowed: it panics before touching anything.) -/
 def Proto (s : TState) : TLabel → Prop
   | .stop => s.stopped = false
-  | .reset _ j _ => 0 ≤ j
+  | .reset d j _ => 0 ≤ j ∧ d ≤ maxInt64
   | _ => True
 
 inductive TReachP (s0 : TState) : TState → Prop where
   | refl : TReachP s0 s0
   | step {s s' : TState} (l : TLabel) : TReachP s0 s → Proto s l → tstep s l = some s' → TReachP s0 s'
 
-/-- `schedule` in closed form: one value `r ∈ [0, 2·jitter]`, `gen` bumped once and captured after the
-bump, the old timer stopped, the new one due `d + r - jitter` from now. -/
-theorem schedule_spec {s s' : TState} {r : Int} (hj : 0 ≤ s.jitter) (h : schedule s r = some s') :
+/-! ### The arithmetic of `schedule` over Go's fixed-width integers
+
+`schedRandBound`, `schedRejects`, `schedNext` are generated with `wrap64` / `wrapU64` around every
+operation of the source. The three lemmas below are the only place where that arithmetic is opened;
+they hold for **all** int64 values `0 ≤ jitter < d ≤ MaxInt64` - no "durations are small" assumption. -/
+
+theorem tdiv_max : Int.tdiv 9223372036854775807 2 = 4611686018427387903 := by decide
+
+/-- `schedule` draws exactly once on every path: either with `rand.Int63n` or with the rejection loop
+over `rand.Uint64` (the calls of math/rand the extractor found are these three, each in its
+recognised position). -/
+theorem sched_one_draw (j : Int) :
+    schedRandCalls = ["rand.Int63n", "rand.Uint64", "rand.Uint64"] ∧
+    (schedUsesInt63n j != schedUsesUint64 j) = true := by
+  refine ⟨by decide, ?_⟩
+  unfold schedUsesInt63n schedUsesUint64
+  cases decide (j ≤ Int.tdiv maxInt64 (2 : Int)) <;> rfl
+
+/-- The values the random source can deliver to `schedule` are exactly `0 … 2·jitter`, on both paths
+(`rand.Int63n(2·jitter+1)` while that fits into an int64 - then its argument is positive, no panic -,
+the rejection loop over `rand.Uint64` above that), for every int64 jitter `0 ≤ jitter < MaxInt64`. -/
+theorem drawOk_eq {j r : Int} (h0 : 0 ≤ j) (h2 : j < 9223372036854775807) :
+    drawOk j r = some (decide (0 ≤ r ∧ r ≤ 2 * j)) := by
+  have _ := sched_one_draw j
+  unfold drawOk schedUsesInt63n schedUsesUint64 schedRandBound schedRejects
+  simp only [wrap64, wrapU64, maxInt64, tdiv_max]
+  by_cases hs : j ≤ 4611686018427387903
+  · have e1 : ((j * 2 + 9223372036854775808) % 18446744073709551616 - 9223372036854775808 + 1 + 9223372036854775808) %
+                  18446744073709551616 - 9223372036854775808 = 2 * j + 1 := by omega
+    simp only [hs, decide_true, if_true, e1]
+    rw [if_neg (by omega)]
+    congr 1
+    rw [decide_eq_decide]
+    omega
+  · have e2 : j % 18446744073709551616 * 2 % 18446744073709551616 = 2 * j := by omega
+    simp only [hs, decide_false, Bool.not_false, if_true, e2]
+    rw [if_neg (by simp)]
+    congr 1
+    rw [Bool.eq_iff_iff]
+    simp only [Bool.and_eq_true, decide_eq_true_eq, Bool.not_eq_true', decide_eq_false_iff_not]
+    omega
+
+/-- The duration handed to `time.AfterFunc` is `d - jitter + r`, saturated at `MaxInt64` - for every
+int64 `d`, `jitter` with `0 ≤ jitter < d ≤ MaxInt64` and every possible draw: nothing wraps around. -/
+theorem schedNext_eq {d j r : Int} (h0 : 0 ≤ j) (h1 : j < d) (h2 : d ≤ 9223372036854775807)
+    (hr0 : 0 ≤ r) (hr : r ≤ 2 * j) : schedNext d j r = min (d - j + r) 9223372036854775807 := by
+  unfold schedNext int63n
+  simp only [wrap64, wrapU64, maxInt64, tdiv_max]
+  have e0 : (if decide (j ≤ 4611686018427387903) = true then r % 18446744073709551616 else r) = r := by
+    split <;> omega
+  have e1 : (d - j + 9223372036854775808) % 18446744073709551616 - 9223372036854775808 = d - j := by omega
+  simp only [e0, e1]
+  have e2 : ((9223372036854775807 - (d - j) + 9223372036854775808) % 18446744073709551616 - 9223372036854775808) %
+      18446744073709551616 = 9223372036854775807 - (d - j) := by omega
+  simp only [e2]
+  by_cases hc : r ≤ 9223372036854775807 - (d - j)
+  · simp only [hc, decide_true, if_true]
+    omega
+  · simp only [hc, decide_false]
+    rw [if_neg (by simp)]
+    omega
+
+/-- `schedule` in closed form, for every int64 `0 ≤ jitter < d ≤ MaxInt64`: it does not panic, the
+label's value is one of `0 … 2·jitter`, `gen` is bumped once and captured after the bump, the old
+timer is stopped, the new one is due `min (d - jitter + r) MaxInt64` from now. -/
+theorem schedule_spec {s s' : TState} {r : Int} (hj : 0 ≤ s.jitter) (hjd : s.jitter < s.d)
+    (hd : s.d ≤ maxInt64) (h : schedule s r = some s') :
     0 ≤ r ∧ r ≤ 2 * s.jitter ∧
       s' = { s with gen := s.gen + 1, hasTimer := true,
-                    timer := some ⟨s.now + (s.d + r - s.jitter), s.gen + 1⟩ } := by
+                    timer := some ⟨s.now + min (s.d - s.jitter + r) maxInt64, s.gen + 1⟩ } := by
+  unfold maxInt64 at hd ⊢
   unfold schedule at h
-  simp only [schedStopsOld, schedRandBound, schedBumpsGen, schedCapturesGen, schedTimerDur, schedNext,
-    conv, int63n] at h
-  split at h
-  · omega
-  · split at h
-    · cases h
-    · cases h
-      refine ⟨by omega, by omega, ?_⟩
-      simp
+  rw [drawOk_eq hj (by omega)] at h
+  by_cases hr : 0 ≤ r ∧ r ≤ 2 * s.jitter
+  · simp only [hr, and_self, decide_true, schedStopsOld, schedBumpsGen, schedCapturesGen, if_true] at h
+    rw [schedNext_eq hj hjd hd hr.1 hr.2] at h
+    cases h
+    exact ⟨hr.1, hr.2, by simp⟩
+  · simp only [hr, decide_false] at h
+    cases h
 
-/-- `rand.Int63n`'s precondition holds for every non-negative jitter: `schedule` does not panic. -/
-theorem schedule_enabled (s : TState) (hj : 0 ≤ s.jitter) : ∃ s', schedule s 0 = some s' := by
+/-- Every value `0 … 2·jitter` is a possible draw: `schedule` is enabled for exactly these labels
+(with `schedule_spec`: the rand label ranges over exactly the values the code can draw). -/
+theorem schedule_enabled (s : TState) {r : Int} (hj : 0 ≤ s.jitter) (hjd : s.jitter < s.d)
+    (hd : s.d ≤ maxInt64) (hr0 : 0 ≤ r) (hr : r ≤ 2 * s.jitter) : ∃ s', schedule s r = some s' := by
+  unfold maxInt64 at hd
   unfold schedule
-  have h1 : ¬ (s.jitter * 2 + 1 ≤ 0) := by omega
-  simp [schedRandBound, conv, h1]
+  rw [drawOk_eq hj (by omega)]
+  simp [hr0, hr]
+
+/-! ### The statement skeletons behind the atomic labels
+
+The callback, `Stop` and `Reset` are single labels of the LTS because each holds `t.m` from its first
+to its last statement. These closed lemmas compare the regenerated statement lists with the shapes
+the labels mirror (`Model.XTime.cbMirrored` …): hoisting the `t.gen == gen` test out of the lock,
+sending after `Unlock`, an extra statement in `Stop` … make them false, and `tinv_step` (hence every
+ticker theorem) stops compiling. -/
+
+theorem cb_skeleton : cbMirrored = true := by decide
+theorem stop_skeleton : stopMirrored = true := by decide
+theorem reset_skeleton : resetMirrored = true := by decide
 
 /-- The callback's `select` has a `default`: it never blocks; it sends iff the one-slot channel is
 empty. -/
@@ -64,7 +146,7 @@ structure TInv (s : TState) : Prop where
   alive : s.panicked = false
   modelled : s.unmodelled = false
   orphans : s.orphans = []
-  valid : 0 < s.d ∧ 0 ≤ s.jitter ∧ s.jitter < s.d
+  valid : 0 < s.d ∧ 0 ≤ s.jitter ∧ s.jitter < s.d ∧ s.d ≤ maxInt64
   timerGen : ∀ t, s.timer = some t → t.gen = s.gen
   pendLe : ∀ g ∈ s.pending, g ≤ s.gen
   stoppedOff : s.stopped = true → s.timer = none ∧ s.gen ∉ s.pending
@@ -80,7 +162,7 @@ structure TPre (s : TState) : Prop where
   alive : s.panicked = false
   modelled : s.unmodelled = false
   orphans : s.orphans = []
-  valid : 0 < s.d ∧ 0 ≤ s.jitter ∧ s.jitter < s.d
+  valid : 0 < s.d ∧ 0 ≤ s.jitter ∧ s.jitter < s.d ∧ s.d ≤ maxInt64
   pendLe : ∀ g ∈ s.pending, g ≤ s.gen
   spaced : Spaced s.sent
   lastLe : ∀ p, s.sent.head? = some p → p.1 ≤ s.now
@@ -92,8 +174,9 @@ theorem TInv.pre {s : TState} (hi : TInv s) : TPre s :=
 /-- What `schedule` re-establishes. -/
 theorem tinv_schedule {s s' : TState} {r : Int} (hi : TPre s) (hns : s.stopped = false)
     (h : schedule s r = some s') : TInv s' := by
-  obtain ⟨hr0, _, rfl⟩ := schedule_spec hi.valid.2.1 h
+  obtain ⟨hr0, _, rfl⟩ := schedule_spec hi.valid.2.1 hi.valid.2.2.1 hi.valid.2.2.2 h
   have hv := hi.valid
+  have hmax : s.d ≤ 9223372036854775807 := hv.2.2.2
   refine { alive := hi.alive, modelled := hi.modelled, orphans := hi.orphans, valid := hi.valid,
            timerGen := ?_, pendLe := ?_, stoppedOff := ?_, runningHas := ?_, spaced := hi.spaced,
            lastLe := hi.lastLe, timerGap := ?_, pendGap := ?_, chanCap := hi.chanCap }
@@ -102,17 +185,23 @@ theorem tinv_schedule {s s' : TState} {r : Int} (hi : TPre s) (hns : s.stopped =
   · intro hs; simp [hns] at hs
   · intro _; rfl
   · intro t p ht hp; simp at ht; subst ht
-    have := hi.lastLe p hp; simp; omega
+    have := hi.lastLe p hp; simp [maxInt64]; omega
   · intro hg; have := hi.pendLe _ hg; simp at this; omega
 
+/-- The two validation guards of `NewJitterTicker` are exactly the documented ones: it panics before
+creating anything iff `d ≤ 0` or `jitter ≥ d`. -/
+theorem newPanics_iff (d j : Int) : (newPanicsD d j || newPanicsJ d j) = decide (d ≤ 0 ∨ j ≥ d) := by
+  simp only [newPanicsD, newPanicsJ, Bool.decide_or]
+
+theorem newPanics_false {d j : Int} (hd : 0 < d) (hj : j < d) : (newPanicsD d j || newPanicsJ d j) = false := by
+  rw [newPanics_iff]; simp; omega
+
 theorem tinv_create {now d j r : Int} {s : TState} (hd : 0 < d) (hj0 : 0 ≤ j) (hj : j < d)
-    (h : create now d j r = some s) : TInv s := by
+    (hmax : d ≤ maxInt64) (h : create now d j r = some s) : TInv s := by
   unfold create at h
-  have h1 : (newPanicsD d j || newPanicsJ d j) = false := by
-    simp [newPanicsD, newPanicsJ]; omega
-  simp only [h1] at h
+  simp only [newPanics_false hd hj] at h
   refine tinv_schedule (s := _) ?_ rfl h
-  exact { alive := rfl, modelled := (by simp [newLocked]), orphans := rfl, valid := ⟨hd, hj0, hj⟩,
+  exact { alive := rfl, modelled := (by simp [newLocked]), orphans := rfl, valid := ⟨hd, hj0, hj, hmax⟩,
           pendLe := (by intro g hg; cases hg), spaced := trivial,
           lastLe := (by intro p hp; cases hp), chanCap := (by simp) }
 
@@ -191,7 +280,7 @@ theorem tinv_step {s s' : TState} {l : TLabel} (hi0 : TInv s) (hp : Proto s l)
     cases hg : u.pending[i]? with
     | none => simp [hg] at h
     | some g =>
-      simp only [hg, cbLocked, cbGenOk, cbSend_spec] at h
+      simp only [hg, cb_skeleton, cbGenOk, cbSend_spec] at h
       have hmem : g ∈ u.pending := List.mem_of_getElem? hg
       by_cases heq : u.gen = g
       · -- the callback of the current generation: tick (if the slot is free) and re-schedule
@@ -259,8 +348,8 @@ theorem tinv_step {s s' : TState} {l : TLabel} (hi0 : TInv s) (hp : Proto s l)
       have hg' : 0 < d ∧ j < d := by
         simp [resetPanicsD, resetPanicsJ] at hg; omega
       refine tinv_schedule ?_ rfl h
-      exact { alive := hi.alive, modelled := (by simp [hi.modelled, resetLocked]), orphans := hi.orphans,
-              valid := ⟨hg'.1, hp', hg'.2⟩, pendLe := hi.pendLe, spaced := hi.spaced, lastLe := hi.lastLe,
+      exact { alive := hi.alive, modelled := (by simp [hi.modelled, resetLocked, reset_skeleton]), orphans := hi.orphans,
+              valid := ⟨hg'.1, hp'.1, hg'.2, hp'.2⟩, pendLe := hi.pendLe, spaced := hi.spaced, lastLe := hi.lastLe,
               chanCap := hi.chanCap }
   | stop =>
     have hns : u.stopped = false := hp'
@@ -268,7 +357,7 @@ theorem tinv_step {s s' : TState} {l : TLabel} (hi0 : TInv s) (hp : Proto s l)
     dsimp only at h
     rw [if_neg (by simp [hht])] at h
     cases h
-    simp only [stopStopsTimer, stopBumpsGen, stopClearsTimer, stopLocked]
+    simp only [stopStopsTimer, stopBumpsGen, stopClearsTimer, stopLocked, stop_skeleton]
     refine { alive := hi.alive, modelled := (by simp [hi.modelled]), orphans := (by simp [hi.orphans]), valid := hi.valid,
              timerGen := ?_, pendLe := ?_, stoppedOff := ?_, runningHas := ?_, spaced := hi.spaced,
              lastLe := hi.lastLe, timerGap := ?_, pendGap := ?_, chanCap := hi.chanCap }
@@ -293,9 +382,8 @@ theorem schedule_lastPanic {s s' : TState} {r : Int} (h : schedule s r = some s'
   dsimp only at h
   split at h
   · cases h; rfl
-  · split at h
-    · cases h
-    · cases h; simp [h0] at h1
+  · cases h
+  · cases h; simp [h0] at h1
 
 /-- A call reports a panic only if it died holding the mutex or was a `Reset` with arguments outside
 the documented domain. -/
@@ -450,7 +538,7 @@ theorem spaced_get : ∀ (l : List (Int × Int)), Spaced l → ∀ i (h : i + 1 
 
 def protoB (s : TState) : TLabel → Bool
   | .stop => !s.stopped
-  | .reset _ j _ => decide (0 ≤ j)
+  | .reset d j _ => decide (0 ≤ j ∧ d ≤ maxInt64)
   | _ => true
 
 theorem proto_of_protoB {s : TState} {l : TLabel} (h : protoB s l = true) : Proto s l := by
